@@ -219,6 +219,7 @@ fn run_sequence_tsi(w: u8, tsi: u64, init_name: &str, init: Option<u128>, ops: &
 }
 
 static SEQ: AtomicU64 = AtomicU64::new(0);
+static STILL: AtomicU64 = AtomicU64::new(0);
 
 #[derive(Clone, Debug)]
 enum TEv {
@@ -343,7 +344,7 @@ fn main() {
     let prop = Property {
         id: "C15",
         level: "exploration",
-        rule: "reference set model (Live) checked after every operation: (sequences) ALL operation sequences over {allocate, drop oldest handle, drop newest handle, add object with handle, add object implicitly, publish+drain until the objects are gone} up to depth d (6 quick, 8 thorough) for each TOI width 16..112 and initial values {1, 0, max-2, max-1, max, 2^w, u128::MAX, random default}; wire and FDT TOIs compared with the allocated values through the independent decoder; (inner_boundaries) allocation histories started 0-3 values before every inner 16-bit boundary 2^k < 2^w of the width, for five TSI values covering the TSI field classes, every allocated value attached, transmitted and compared on the wire and in the FDT; (wrap) 70 000 allocations across the 16-bit wrap with a sliding window of live handles and with all but a few values live; (threads) 2-8 real threads allocating through Arc<Mutex<Sender>> and dropping handles (moved between threads) without the lock, merged log ordered by a global sequence counter with call/return events; Send/Sync claims asserted at compile time; a case is one batch of sequences, non-trivial when allocations were observed; distinct = (width, initial, batch)",
+        rule: "reference set model (Live) checked after every operation: (sequences) ALL operation sequences over {allocate, drop oldest handle, drop newest handle, add object with handle, add object implicitly, publish+drain until the objects are gone} up to depth d (6 quick, 8 thorough) for each TOI width 16..112 and initial values {1, 0, max-2, max-1, max, 2^w, u128::MAX, random default}; wire and FDT TOIs compared with the allocated values through the independent decoder; (inner_boundaries) allocation histories started 0-3 values before every inner 16-bit boundary 2^k < 2^w of the width, for five TSI values covering the TSI field classes, every allocated value attached, transmitted and compared on the wire and in the FDT; (wrap) 70 000 allocations across the 16-bit wrap with a sliding window of live handles and with all but a few values live, also while an object that was removed during its first transfer is still sending with its TOI; (threads) 2-8 real threads allocating through Arc<Mutex<Sender>> and dropping handles (moved between threads) without the lock, merged log ordered by a global sequence counter with call/return events; Send/Sync claims asserted at compile time; a case is one batch of sequences, non-trivial when allocations were observed; distinct = (width, initial, batch)",
         assumptions: vec![
             "a handle drop is effective somewhere inside its call/return interval: reuse is only flagged when an allocation lies entirely inside the definitely-live interval of the same value".into(),
             "TOI 0 handles created internally for FDTs are not modelled".into(),
@@ -440,7 +441,7 @@ fn main() {
             cr
         }));
         // ---- wrap-around with many live values
-        gens.push(Gen::new("wrap_16bit", 12, move |ctx, i| {
+        gens.push(Gen::new("wrap_16bit", 18, move |ctx, i| {
             let mut cr = CaseResult::default();
             let mut rng = Rng::keyed(ctx.seed, "C15w", 0, i as u64);
             let mut spec = SenderSpec::new(OtiSpec::new(Fec::NoCode, 1400, 8, 0));
@@ -453,6 +454,36 @@ fn main() {
                 let mut q: std::collections::VecDeque<Box<Toi>> = Default::default();
                 let mut viol = vec![];
                 let n = if window > 60000 { 66_000 } else { 70_000 };
+                // cases 12-17: an object is added, its transfer begins, and remove_object is called while it is being sent
+                // (a first transfer is not cancelled): it keeps emitting packets with its TOI, which therefore stays
+                // 'attached to a live object' during the whole lap of allocations that follows
+                let mut in_transfer: Option<u128> = None;
+                if i >= 12 {
+                    let o = ObjSpec::new(vec![7u8; 1400 * 40], "file:///toi/removed-in-transfer");
+                    let b = build_object(&o).unwrap();
+                    if let Ok(t) = sender.add_object(0, b.desc) {
+                        let _ = sender.publish(util::at(0));
+                        let mut got = 0;
+                        for _ in 0..200 {
+                            match sender.read(util::at(0)) {
+                                Some(p) => {
+                                    if vh::wire::decode(&p).map(|d| d.lct.toi == t).unwrap_or(false) {
+                                        got += 1;
+                                        if got == 3 {
+                                            break;
+                                        }
+                                    }
+                                }
+                                None => break,
+                            }
+                        }
+                        if got == 3 {
+                            m.live.insert(t);
+                            sender.remove_object(t);
+                            in_transfer = Some(t);
+                        }
+                    }
+                }
                 for k in 0..n {
                     let h = util::with_budget(5_000_000, || sender.allocate_toi());
                     if let Some(x) = m.check_new(h.get(), "allocate_toi", "wrap", &[format!("allocation #{} with {} live handles", k, q.len())]) {
@@ -472,11 +503,22 @@ fn main() {
                         drop(h);
                     }
                 }
+                // non-vacuity: the removed object is indeed still sending with its TOI after the lap
+                let mut still = 0u64;
+                if let (Some(t), true) = (in_transfer, viol.is_empty()) {
+                    if let Some(p) = sender.read(util::at(0)) {
+                        if vh::wire::decode(&p).map(|d| d.lct.toi == t).unwrap_or(false) {
+                            still = 1;
+                        }
+                    }
+                }
+                STILL.fetch_add(still, std::sync::atomic::Ordering::Relaxed);
                 (viol, n)
             });
             match r {
                 Ok((v, n)) => {
                     cr.violations.extend(v);
+                    cr.count("removed_objects_still_sending_after_the_lap", STILL.swap(0, std::sync::atomic::Ordering::Relaxed));
                     cr.count("allocations", n as u64);
                     cr.shape = Some(util::fnv(&format!("wrap{}", i)));
                     cr.sample = Some(json!({"width": 16, "live_window": window, "allocations": n}));
